@@ -9,9 +9,9 @@ unit('codecs_bounded', functions=CODEC_FUNCS, spec=None, harness='harness/codecs
 
 T = ['ST::string accessors size()/c_str() are extracted and inlined (not assumed)']
 job('codecs', 'b64_decode', 'h_b64_decode', ['C14', 'C15'], expect=[r'stp_b64_decode\.postcondition\.[1-6]', r'stp_b64_decode\.loop0\.invariant_step', r'stp_b64_decode\.loop0\.decreases'])
-job('codecs', 'b64_decode.valid', 'h_b64_decode', ['C15'], defines=['HYP_VALID'], expect=[r'stp_b64_decode\.postcondition\.7'])
+job('codecs', 'b64_decode.valid', 'h_b64_decode', ['C14', 'C15'], defines=['HYP_VALID'], expect=[r'stp_b64_decode\.postcondition\.7'])
 job('codecs', 'hex_decode', 'h_hex_decode', ['C14', 'C15'], expect=[r'stp_hex_decode\.postcondition\.[1-4]', r'stp_hex_decode\.loop0\.invariant_step'])
-job('codecs', 'hex_decode.valid', 'h_hex_decode', ['C15'], defines=['HYP_VALID'], expect=[r'stp_hex_decode\.postcondition\.5'])
+job('codecs', 'hex_decode.valid', 'h_hex_decode', ['C14', 'C15'], defines=['HYP_VALID'], expect=[r'stp_hex_decode\.postcondition\.5'])
 job('codecs', 'hex_encode', 'h_hex_encode', ['C14'], expect=[r'stp_hex_encode\.postcondition\.[12]', r'stp_hex_encode\.loop0\.invariant_step'])
 job('codecs', 'b64_encode', 'h_b64_encode', ['C14'], expect=[r'stp_b64_encode\.postcondition\.[1-5]', r'stp_b64_encode\.loop0\.invariant_step'])
 job('codecs', 'b64_sizes', 'h_b64_sizes', ['C14', 'C15'], expect=[r'stp_b64_encode_size\.postcondition', r'stp_b64_decode_size\.postcondition'])
